@@ -43,6 +43,7 @@ func (h *hx) round(r int) {
 		h.objectSessions(s, others)
 	}
 	h.clientScenarios(r, A, B, c0, c1)
+	h.keySwapScenarios(A, B, c0, c1)
 	h.defaultSecretInstances(a, c0, t0+300*sec)
 	h.e2ePair(A, c0, hostnames[0], t0+100*sec)
 	h.e2ePair(B, c1, hostnames[1], t0+200*sec)
